@@ -62,7 +62,37 @@ sys.exit(1 if bad else 0)
 '''
 
 
+EAGER_GLOBALS = '''
+import sys, os, tempfile, importlib.util
+import numpy as np
+src = """
+from onnxscript import script, FLOAT
+from onnxscript import opset18 as op
+ALPHA = 2.0
+
+@script(default_opset=op)
+def f(x: FLOAT[2]) -> FLOAT[2]:
+    return x * ALPHA
+"""
+d = tempfile.mkdtemp(); path = os.path.join(d, "eg_case.py"); open(path, "w").write(src)
+spec = importlib.util.spec_from_file_location("eg_case", path); mod = importlib.util.module_from_spec(spec); sys.modules["eg_case"] = mod; spec.loader.exec_module(mod)
+from onnx.reference import ReferenceEvaluator
+x = np.array([1.0, 2.0], dtype=np.float32)
+e1 = np.asarray(mod.f(x)).tolist()
+g1 = ReferenceEvaluator(mod.f.to_model_proto()).run(None, {"x": x})[0].tolist()
+mod.ALPHA = 10.0
+e2 = np.asarray(mod.f(x)).tolist()
+g2 = ReferenceEvaluator(mod.f.to_model_proto()).run(None, {"x": x})[0].tolist()
+if e1 != e2 or g1 != g2:
+    print(f"after rebinding the global ALPHA = 10.0: eager call {e1} -> {e2}, graph {g1} -> {g2}")
+    sys.exit(1)
+sys.exit(0)
+'''
+
+
 def replay(ob):
+    if "C14.eager.executed_function_reads_globals" in ob["name"]:
+        return EAGER_GLOBALS
     if "snapshot_of_the_script_time_constant" in ob["name"]:
         return SNAPSHOT
     n = ob["name"]
